@@ -3,10 +3,13 @@
  *   W<bits>:addr:expected:timeout   wait32/wait64 (timeout < 0 = infinite)
  *   N:addr:count                    notify
  *   S:addr:value                    atomic store of an i32
+ *   D:ms                            (real threads only) sleep
+ *   U:addr:count:want               (real threads only) notify repeatedly (5 ms apart) until `want` waiters have been woken in total
  * API-level events (call/ret) and sync-level events go to stdout as ndjson. */
 #include <stdio.h>
 #include <stdlib.h>
 #include <string.h>
+#include <time.h>
 #include "w2c2_base.h"
 void sh_run(void* (*mainfn)(void*), void* arg);
 void trap(Trap t) { printf("{\"ev\":\"trap\",\"code\":%d}\n", (int)t); fflush(stdout); _Exit(3); }
@@ -27,6 +30,19 @@ static void* worker(void* arg) {
             sh_api("call", "notify", a, b, 0, 0);
             r = wasmMemoryAtomicNotify(mem, (U32)a, (U32)b);
             sh_api("ret", "notify", a, b, 0, r);
+        } else if (op[0] == 'U') {
+            long long want = 1, got = 0; struct timespec ts; ts.tv_sec = 0; ts.tv_nsec = 5000000L;
+            sscanf(op, "U:%lld:%lld:%lld", &a, &b, &want);
+            while (got < want) {
+                sh_api("call", "notify", a, b, 0, 0);
+                r = wasmMemoryAtomicNotify(mem, (U32)a, (U32)b);
+                sh_api("ret", "notify", a, b, 0, r);
+                got += r;
+                if (got < want) nanosleep(&ts, NULL);
+            }
+        } else if (op[0] == 'D') {
+            struct timespec ts; sscanf(op, "D:%lld", &a); ts.tv_sec = a / 1000; ts.tv_nsec = (a % 1000) * 1000000L;
+            sh_point("delay"); nanosleep(&ts, NULL);
         } else if (op[0] == 'S') {
             sscanf(op, "S:%lld:%lld", &a, &b);
             sh_point("store");
